@@ -360,6 +360,36 @@ func (m *MsgClaim) ValidateBasic() (err error) {
 	return nil
 }
 
+func (m *MsgConfirm) ValidateBasic() (err error) {
+	if _, ok := externalAddressRouter[m.ChainName]; !ok {
+		return sdkerrors.ErrInvalidRequest.Wrap("unrecognized cross chain name")
+	}
+	if m.Confirm == nil {
+		return sdkerrors.ErrInvalidRequest.Wrap("empty confirm")
+	}
+	confirm, ok := m.Confirm.GetCachedValue().(Confirm)
+	if !ok {
+		return sdkerrors.ErrInvalidRequest.Wrapf("expected confirm type %T, got %T", new(Confirm), m.Confirm.GetCachedValue())
+	}
+	if v, ok := confirm.(sdk.HasValidateBasic); ok {
+		if err = v.ValidateBasic(); err != nil {
+			return err
+		}
+	}
+	if confirm.GetChainName() != m.ChainName {
+		return sdkerrors.ErrInvalidRequest.Wrap("chain name does not match the confirm's chain name")
+	}
+	// the transaction is signed by m.BridgerAddress, the confirmation is stored for the oracle of the confirm's bridger
+	bridger, err := sdk.AccAddressFromBech32(m.BridgerAddress)
+	if err != nil {
+		return sdkerrors.ErrInvalidAddress.Wrapf("invalid bridger address: %s", err)
+	}
+	if inner, err := sdk.AccAddressFromBech32(confirm.GetBridgerAddress()); err != nil || !bridger.Equals(inner) {
+		return sdkerrors.ErrInvalidAddress.Wrap("bridger address does not match the confirm's bridger address")
+	}
+	return nil
+}
+
 func (m *MsgClaim) GetSigners() []sdk.AccAddress {
 	claim, ok := m.Claim.GetCachedValue().(ExternalClaim)
 	if !ok {
